@@ -16,13 +16,19 @@ linked reads (BX), --ignore-linked-read; polyphase --distrust-genotypes --includ
 compare/stats/split/haplotagphase/unphase options), and the hash seeds are no longer 0, 1, random but chosen per subcommand
 so that the sets of names it iterates over come in different orders (c16_inputs.covering_seeds).  All runs of one input are
 executed by a small pool of worker threads (independent processes).
+
+Round 10: inputs with EXACT TIES at the places where a subcommand takes a maximum / the first of several equal elements
+(harness/gen/c16_ties.py): haplotag lists in which several phase sets of every chromosome tie for the largest number of tagged
+reads (`split --only-largest-block`: variants split-largest-ties[-gz] on the generated input, and the stream of small lists
+`split-ties`, both under hash seeds that enumerate the tied names in different orders; kept reads compared with the Lean model
+`c16.largest`), phased VCFs with blocks of equal size and span (stats-tied-blocks, compare-tied-blocks).
 """
 import collections, contextlib, gzip, io, itertools, json, os, shutil, sys
 from concurrent.futures import ThreadPoolExecutor
 
 import pysam
 
-from harness.gen import sim, c15_poly, c16_inputs
+from harness.gen import sim, c15_poly, c16_inputs, c16_ties
 
 LEVEL = "other"
 EXPLANATION = ("No executable model can exhibit CPython's hash randomisation, multiprocessing scheduling or htslib's "
@@ -39,7 +45,8 @@ RULE = ("one evaluation = one (subcommand, input, variant) run compared with the
         "distinct = distinct (subcommand, variant, input digest). In-process: ReadSet.sort under permuted insertion "
         "orders (non-trivial: >= 2 reads share a first position); readselection after ReadSet.sort under permuted insertion "
         "orders (non-trivial: two reads share a first position and some read is rejected); phase/genotype on a BAM whose records "
-        "of one start position are permuted")
+        "of one start position are permuted; split --only-largest-block on haplotag lists with tied phase sets (non-trivial: at least "
+        "one chromosome has >= 2 phase sets of the largest size and reads are kept)")
 MANIFEST = dict(
     category="other",
     text="partial Lean 4 theorems (read comparator is a total order and ReadSet::sort a function of the read set; "
@@ -51,6 +58,8 @@ MANIFEST = dict(
          "stats, compare, split, haplotagphase and about 30 option variants of them (the non-default parser branches that "
          "touch per-sample / per-family / per-chromosome state: --no-priors, --ped, --use-ped-samples, several --sample, "
          "--ignore-read-groups, --algorithm, --distrust-genotypes with all lists, --tag-supplementary, linked reads, ...) "
+         "and inputs with exact ties where a maximum is taken (split --only-largest-block with tied phase sets, stats/compare with "
+         "equal-size blocks; the largest-block choice modelled: Counter in first-occurrence order + most_common(1)) "
          "re-run on identical generated multi-sample multi-chromosome inputs under PYTHONHASHSEED values chosen so that the "
          "sets of sample names come in different iteration orders, --threads / --output-threads 1..4 and repeated; outputs "
          "compared record for record",
@@ -245,13 +254,23 @@ def prepare_inputs(ctx, case, d):
         pysam.tabix_index(P["single0_gz"], preset="vcf", force=True)
     P["polyphased"] = os.path.join(d, "poly", "phased.vcf")
     must(["polyphase", P["pvcf"], P["pbam"], "--ploidy", P["ploidy"], "-o", P["polyphased"], "--reference", P["pfa"]])
+    # ---- round 10: inputs with EXACT TIES at the places where a maximum / first of equals is taken -----------------------
+    P["taglist_ties"] = os.path.join(fd, "tags_ties.tsv")
+    P["tie_rows"], P["ties"] = c16_ties.tied_haplotag_list(P["taglist"], P["taglist_ties"], seed)
+    P["taglist_ties_gz"] = P["taglist_ties"] + ".gz"
+    with open(P["taglist_ties"], "rb") as f, gzip.open(P["taglist_ties_gz"], "wb") as g:
+        g.write(f.read())
+    P["tieA"], P["tieB"] = os.path.join(fd, "tieA.vcf"), os.path.join(fd, "tieB.vcf")
+    P["n_tie_contigs"] = c16_ties.tied_block_vcfs(fam.contigs, P["tieA"], P["tieB"], seed)
+    tie_sets = [list(v) for v in P["ties"].values()][:3]
+    tie_sets += [[] for _ in range(3 - len(tie_sets))]
     # the sets of names the runs iterate over (for the choice of hash seeds)
     T = c16_inputs.trios()
     P["sets"] = collections.OrderedDict([
         ("S", list(fam.samples)), ("T0", list(T[0])), ("T1", list(T[1])), ("PED", [s for t in T for s in t]),
         ("POLY", list(poly.samples)), ("HT3", [T[0][2], T[1][0], c16_inputs.NAMES[2][0]]),
         ("SUB", [c16_inputs.NAMES[2][0], T[1][2], T[0][0]]), ("HT2", [T[0][1], T[1][2]]),
-        ("INFO", ["AC", "AN"])])
+        ("INFO", ["AC", "AN"]), ("TIE0", tie_sets[0]), ("TIE1", tie_sets[1]), ("TIE2", tie_sets[2])])
     P["probed"] = c16_inputs.probe_orders(list(P["sets"].values()), SEED_POOL, sim.PY)
     return P
 
@@ -467,6 +486,33 @@ def subcommands(P, quick, only=None):
                 {"h1": (o + "/h1.bam", "bam"), "h2": (o + "/h2.bam", "bam"), "untagged": (o + "/u.bam", "bam"),
                  "hist": (o + "/hist.tsv", "text")})
 
+    # ---- round 10: exact ties where a maximum / the first of equals is taken ------------------------------------------
+    def split_largest_ties(o, t):
+        # on every chromosome several phase sets tie for the largest number of tagged reads
+        return (["split", "--only-largest-block", "--output-h1", o + "/h1.bam", "--output-h2", o + "/h2.bam", "--output-untagged",
+                 o + "/u.bam", "--read-lengths-histogram", o + "/hist.tsv", P["bam"], P["taglist_ties"]],
+                {"h1": (o + "/h1.bam", "bam"), "h2": (o + "/h2.bam", "bam"), "untagged": (o + "/u.bam", "bam"),
+                 "hist": (o + "/hist.tsv", "text")})
+
+    def split_largest_ties_gz(o, t):
+        return (["split", "--only-largest-block", "--add-untagged", "--output-h1", o + "/h1.bam", "--output-h2", o + "/h2.bam",
+                 "--read-lengths-histogram", o + "/hist.tsv", P["bam"], P["taglist_ties_gz"]],
+                {"h1": (o + "/h1.bam", "bam"), "h2": (o + "/h2.bam", "bam"), "hist": (o + "/hist.tsv", "text")})
+
+    def stats_tied_blocks(o, t):
+        # every contig: three blocks with the same number of variants and the same span (largest block, N50, block list)
+        return (["stats", P["tieA"], "--chr-lengths", P["chrlen"], "--tsv", o + "/s.tsv", "--block-list", o + "/blocks.tsv", "--gtf",
+                 o + "/s.gtf"],
+                {"tsv": (o + "/s.tsv", "text"), "blocks": (o + "/blocks.tsv", "text"), "gtf": (o + "/s.gtf", "text"),
+                 "stdout": ("<stdout>", "text")})
+
+    def compare_tied_blocks(o, t):
+        # the intersection blocks of a contig tie for "longest" and differ in their errors (none / a switch / a flip)
+        return (["compare", "--tsv-pairwise", o + "/p.tsv", "--tsv-multiway", o + "/m.tsv", "--switch-error-bed", o + "/e.bed",
+                 "--longest-block-tsv", o + "/lb.tsv", "--names", "a,b,c", P["tieA"], P["tieB"], P["tieA"]],
+                {"pairwise": (o + "/p.tsv", "text"), "multiway": (o + "/m.tsv", "text"), "bed": (o + "/e.bed", "text"),
+                 "longest": (o + "/lb.tsv", "text"), "stdout": ("<stdout>", "text")})
+
     def haplotagphase_options(o, t):
         return (["haplotagphase", "-o", o + "/out.vcf", "--reference", P["fa"], "--chromosome", C[-1], "--chromosome", C[0],
                  "--gap-threshold", "50", "--cut-poly", "5", P["phasedA_gz"], P["tagged"]], {"vcf": (o + "/out.vcf", "vcf")})
@@ -537,6 +583,12 @@ def subcommands(P, quick, only=None):
     add("split-options", split_options, light=True)
     add("split-discard", split_discard, light=True)
     add("haplotagphase-options", haplotagphase_options, light=True)
+    if P.get("ties"):
+        add("split-largest-ties", split_largest_ties, sets=("TIE0", "TIE1", "TIE2"), light=True)
+        add("split-largest-ties-gz", split_largest_ties_gz, sets=("TIE0", "TIE1", "TIE2"), light=True)
+    if P.get("n_tie_contigs"):
+        add("stats-tied-blocks", stats_tied_blocks, light=True)
+        add("compare-tied-blocks", compare_tied_blocks, light=True)
     if P.get("single0_gz"):
         add("haplotagphase-ignore-rg", haplotagphase_ignore_rg, light=True, thorough_only=True)
     add("unphase-ped-phased", unphase_ped, light=True)
@@ -708,15 +760,19 @@ def explore(ctx, case, only=None):
                     results[(name, vi)] = r
         for name, builder, variants, rep in plan:
             compare_runs(ctx, case, name, variants, rep, results, digest)
+            if name == "split-largest-ties":
+                ok = [vi for vi in range(len(variants)) if results[(name, vi)][0] == 0]
+                if ok:
+                    largest_block_correspondence(ctx, dict(case, only=[name]), P["tie_rows"], results[(name, ok[0])][2], digest)
     finally:
         shutil.rmtree(d, ignore_errors=True)
 
 
-def compare_runs(ctx, case, name, variants, rep, results, digest):
+def compare_runs(ctx, case, name, variants, rep, results, digest, sub_case=None):
     def vdesc_of(vi):
         seed, threads = variants[vi]
         return f"PYTHONHASHSEED={seed}" + (f" threads={threads}" if threads is not None else "") + (" (repeated)" if vi == rep else "")
-    sub_case = dict(case, only=[name])
+    sub_case = sub_case or dict(case, only=[name])
     ok_runs = [vi for vi in range(len(variants)) if results[(name, vi)][0] == 0]
     if not ok_runs:
         # not a question of this property: the command fails whatever the seed
@@ -764,6 +820,112 @@ def compare_runs(ctx, case, name, variants, rep, results, digest):
             ctx.nontrivial(f"{name}|{vdesc}|{vi}|{digest}")
     ctx.sample({"subcommand": name, "variants": [f"{s}/{t}" for s, t in variants],
                 "records": {k: (len(v[1]) if v else None) for k, v in base_views.items()}})
+
+
+# ------------------------------------------------------------------------------------------------
+# round 10: `split --only-largest-block` with phase sets that TIE for the largest number of tagged reads
+# ------------------------------------------------------------------------------------------------
+
+def kept_reads(views):
+    names = set()
+    for label in ("h1", "h2"):
+        if views.get(label):
+            names |= {r.split("\t", 1)[0] for r in views[label][1]}
+    return names
+
+
+def largest_block_correspondence(ctx, case, rows, views, digest):
+    """the reads one run kept in the H1/H2 outputs vs the Lean model of `process_haplotag_list_file` +
+    `select_reads_in_largest_phased_blocks` (`c16.largest`: Counter in first-occurrence order, most_common(1))"""
+    ids = {}
+
+    def num(kind, x):
+        return ids.setdefault((kind, x), len(ids))
+    hapnum = {"none": 0, "H1": 1, "H2": 2}
+    rows = [r for r in rows if r[1] in hapnum]
+    req = {"op": "c16.largest", "rows": [[num("r", r[0]), hapnum[r[1]], num("p", r[2]), num("c", r[3])] for r in rows]}
+    ans = ctx.model.ask_many([req])[0]
+    back = {v: k[1] for k, v in ids.items()}
+    model_sel = sorted({back[i] for i in ans["selected"]})
+    chosen, admissible = c16_ties.largest_block_oracle(rows)
+    model_blocks = {back[c]: (back[b], n) for c, b, n in ans["blocks"]}
+    ctx.evaluated()
+    ctx.dist("subcommand", "split-largest-ties:model")
+    if model_blocks != chosen:
+        ctx.disagree("c16.largest:oracle", case, {k: list(v) for k, v in chosen.items()}, {k: list(v) for k, v in model_blocks.items()})
+    impl = sorted(kept_reads(views))
+    if impl != model_sel:
+        ctx.disagree("c16.largest", case, impl[:40], model_sel[:40])
+    n_tied = sum(len(a) > 1 for a in admissible.values())
+    ctx.dist("largest_block_tied_chromosomes", n_tied)
+    if n_tied and impl:
+        ctx.nontrivial(f"split-largest-ties:model|{digest}")
+
+
+def split_ties_case(rng):
+    """a small haplotag list (+ read lengths for an unaligned BAM) in which, on every chromosome, k phase sets have exactly the
+    same largest number of tagged rows; some smaller phase set, some untagged rows"""
+    rows, rid = [], 0
+    for ci in range(rng.choice([1, 2, 2, 3])):
+        chrom = f"chr{ci + 1}"
+        k, m = rng.choice([2, 3, 4]), rng.choice([1, 2, 3])
+        names = [str(int(x) + 7 * ci) for x in rng.sample(c16_ties.PS_NAMES, k + 1)]
+        slots = [t for t in names[:k] for _ in range(m)]
+        rng.shuffle(slots)
+        for _ in range(rng.randrange(0, m)):
+            slots.insert(rng.randrange(len(slots) + 1), names[k])
+        for j, ps in enumerate(slots):
+            rid += 1
+            rows.append([f"r{rid}", "H1" if rng.random() < 0.5 else "H2", ps, chrom, 40 + 10 * names.index(ps) + j % 3])
+        for _ in range(rng.randrange(0, 3)):
+            rid += 1
+            rows.append([f"r{rid}", "none", "none", chrom, 90 + rid % 5])
+    return {"kind": "split-ties", "rows": rows, "digest": str(rng.randrange(10**9))}
+
+
+def check_split_ties(ctx, case, n_seeds=None):
+    """`split --only-largest-block` on a small unaligned BAM + haplotag list with tied phase sets, under hash seeds that
+    enumerate the tied names in different orders; all outputs must be identical (the property), and the kept reads are
+    compared with the Lean model"""
+    n_seeds = n_seeds or (6 if ctx.quick else 12)
+    rows = case["rows"]
+    d = os.path.join(ctx.workdir(), "c16ties")
+    shutil.rmtree(d, ignore_errors=True)
+    os.makedirs(d)
+    try:
+        bam, lst = os.path.join(d, "reads.bam"), os.path.join(d, "tags.tsv")
+        with pysam.AlignmentFile(bam, "wb", header={"HD": {"VN": "1.6", "SO": "unsorted"}}) as f:
+            for name, _, _, _, length in rows:
+                a = pysam.AlignedSegment(f.header)
+                a.query_name, a.flag = name, 4
+                a.query_sequence = ("ACGT" * (length // 4 + 1))[:length]
+                a.query_qualities = pysam.qualitystring_to_array("I" * length)
+                f.write(a)
+        with open(lst, "w") as f:
+            f.write("#readname\thaplotype\tphaseset\tchromosome\n")
+            for r in rows:
+                f.write("\t".join(r[:4]) + "\n")
+        chosen, admissible = c16_ties.largest_block_oracle([tuple(r[:4]) for r in rows])
+        name_sets = [sorted(a) for a in admissible.values() if len(a) > 1]
+        probed = c16_inputs.probe_orders(name_sets, SEED_POOL, sim.PY) if name_sets else {}
+        seeds = c16_inputs.covering_seeds(probed, list(range(len(name_sets))), n_seeds) if probed else ["0"]
+        seeds += [str(i) for i in range(1, 50) if str(i) not in seeds][:n_seeds - len(seeds)]
+
+        def builder(o, t):
+            return (["split", "--only-largest-block", "--output-h1", o + "/h1.bam", "--output-h2", o + "/h2.bam",
+                     "--output-untagged", o + "/u.bam", "--read-lengths-histogram", o + "/hist.tsv", bam, lst],
+                    {"h1": (o + "/h1.bam", "bam"), "h2": (o + "/h2.bam", "bam"), "untagged": (o + "/u.bam", "bam"),
+                     "hist": (o + "/hist.tsv", "text")})
+        with ThreadPoolExecutor(max_workers=JOBS) as ex:
+            runs = list(ex.map(lambda s_: run_variant(ctx, builder, d, f"ties_{s_}", s_, None), seeds))
+        results = {("split-largest-ties", vi): r for vi, r in enumerate(runs)}
+        variants = [(s_, None) for s_ in seeds]
+        compare_runs(ctx, case, "split-largest-ties", variants, None, results, case.get("digest", ""), sub_case=case)
+        ok = [r for r in runs if r[0] == 0]
+        if ok:
+            largest_block_correspondence(ctx, case, [tuple(r[:4]) for r in rows], ok[0][2], case.get("digest", ""))
+    finally:
+        shutil.rmtree(d, ignore_errors=True)
 
 
 # ------------------------------------------------------------------------------------------------
@@ -1050,6 +1212,8 @@ def run(ctx):
             check_readsort(ctx, case)
         elif case.get("kind") == "selection":
             run_selection_batch(ctx, [case])
+        elif case.get("kind") == "split-ties":
+            check_split_ties(ctx, case)
         else:
             explore(ctx, case, only=case.get("only"))
         shutil.rmtree(ctx.workdir(), ignore_errors=True)
@@ -1063,6 +1227,8 @@ def run(ctx):
             check_readsort(ctx, c)
         elif c.get("kind") == "selection":
             run_selection_batch(ctx, [c])
+        elif c.get("kind") == "split-ties":
+            check_split_ties(ctx, c)
         else:
             explore(ctx, c, only=c.get("only"))
     # in-process
@@ -1083,6 +1249,9 @@ def run(ctx):
             if model != impl:
                 ctx.disagree("c16.sort", case, impl, model)
     run_selection_batch(ctx, [selection_case(rng) for _ in range((300 if ctx.quick else 3000) * ctx.scale)])
+    # round 10: small haplotag lists with phase sets tying for the largest size
+    for i in range((2 if ctx.quick else 12) * ctx.scale):
+        check_split_ties(ctx, split_ties_case(rng))
     # exploration
     for i in range((1 if ctx.quick else 3) * ctx.scale):
         explore(ctx, gen_input(rng, ctx.quick, ctx.scale))
